@@ -291,7 +291,7 @@ pub open spec fn spec_tile_offsets(tm: &Tilemap) -> (int, int) {
                      "           let d = self.spec_data();\n"
                      "           if 0 <= sx < d.width as int && 0 <= sy < d.height as int { *r == d.tiles.0[sy * (d.width as int) + sx] } else { r.id == TileId(0) } }),"),
          "rules": ["R1", "R6", "R7"],
-         "body_rewrites": [("&self.tilemap().tiles[index]", "&self.tilemap().tiles.0[index]")],
+         "body_rewrites": [(r"re:&([\w.()]+)\.tiles\[index\]", r"&\1.tiles.0[index]")],   # R8 on whatever expression denotes the TilemapData
          "hints": [("let index =",
                     "        assert((y as int) * (w as int) + (x as int) < (w as int) * (h as int)) by (nonlinear_arith)\n"
                     "            requires 0 <= (x as int) < (w as int), 0 <= (y as int) < (h as int);\n"
@@ -2302,12 +2302,7 @@ pub open spec fn ts_wf(t: &Tileset<Pixels>) -> bool {
 }
 """},
         dict(TSI, kind="fn", file="tileset", name="image", key="Tileset::image", ret="r", rules=["R1", "R15"],
-             body_rewrites=[("""pixels
-            .clone_as_image_rgba()
-            .iter()
-            .copied()
-            .flat_map(|pixel| pixel.0)
-            .collect()""", "flat_all(&pixels.clone_as_image_rgba())")],
+             body_rewrites=[(r"re:pixels\s*\.clone_as_image_rgba\(\)\s*\.iter\(\)\s*\.copied\(\)\s*\.flat_map\(\|(\w+)\| \1\.0\)\s*\.collect\(\)", "flat_all(&pixels.clone_as_image_rgba())")],
              requires="        ts_wf(self),",
              ensures=("        // documented: all tiles in one vertical strip, width = tile width, height = tile height * tile count\n"
                       "        r.w() == self.tile_size.width, r.h() == (self.tile_size.height as int) * (self.tile_count as int),\n"
@@ -2319,14 +2314,8 @@ pub open spec fn ts_wf(t: &Tileset<Pixels>) -> bool {
                      "        assert(4 * (width as int) * (image_height as int) == 4 * ((self.tile_count as int) * (self.tile_size.height as int) * (self.tile_size.width as int))) by (nonlinear_arith)\n"
                      "            requires width as int == self.tile_size.width as int, image_height as int == (self.tile_size.height as int) * (self.tile_count as int);", "before")]),
         dict(TSI, kind="fn", file="tileset", name="tile_image", key="Tileset::tile_image", ret="r", rules=["R1", "R15"],
-             body_rewrites=[("""pixels
-            .clone_as_image_rgba()
-            .iter()
-            .copied()
-            .skip(start_ofs)
-            .take(pixels_per_tile)
-            .flat_map(|pixel| pixel.0)
-            .collect()""", "flat_window(&pixels.clone_as_image_rgba(), start_ofs, pixels_per_tile)")],
+             body_rewrites=[(r"re:pixels\s*\.clone_as_image_rgba\(\)\s*\.iter\(\)\s*\.copied\(\)\s*\.skip\(([^()]+)\)\s*\.take\(([^()]+)\)\s*\.flat_map\(\|(\w+)\| \3\.0\)\s*\.collect\(\)",
+                             r"flat_window(&pixels.clone_as_image_rgba(), \1, \2)")],
              requires="        ts_wf(self),\n        // documented panic: the tile index has to be in range\n        tile_index < self.tile_count,",
              ensures=("        r.w() == self.tile_size.width, r.h() == self.tile_size.height,\n"
                       "        // tile t is the t-th block of width * height pixels of the strip\n"
@@ -2433,6 +2422,40 @@ pub assume_specification<T, E, U, F: FnOnce(T) -> core::result::Result<U, E>>[ c
     requires res is Ok ==> f.requires((res->Ok_0,)),
     ensures res is Err ==> b is Err && b->Err_0 == res->Err_0, res is Ok ==> f.ensures((res->Ok_0,), b),
 ;
+impl Input {
+    /// byteorder's read_u16::<LittleEndian> on the source (TRUSTED; `?` conversion folded in as for read_to_end)
+    #[verifier::external_body]
+    pub fn read_u16_le(&mut self) -> (r: Result<u16>)
+        ensures final(self).fails() == old(self).fails(),
+            (!old(self).fails() && old(self).rest().len() >= 2) ==> r is Ok,
+            old(self).rest().len() < 2 ==> r is Err,
+            r is Err ==> r->Err_0 is IoError,
+            r is Ok ==> old(self).rest().len() >= 2 && r->Ok_0 as int == old(self).rest()[0] as int + 256 * (old(self).rest()[1] as int)
+                && final(self).rest() == old(self).rest().subrange(2, old(self).rest().len() as int),
+    { unimplemented!() }
+    /// std::io::Read::read_exact (TRUSTED): fills the whole buffer with the next bytes or fails
+    #[verifier::external_body]
+    pub fn read_exact(&mut self, buf: &mut Vec<u8>) -> (r: Result<()>)
+        ensures final(self).fails() == old(self).fails(), final(buf)@.len() == old(buf)@.len(),
+            (!old(self).fails() && old(self).rest().len() >= old(buf)@.len()) ==> r is Ok,
+            old(self).rest().len() < old(buf)@.len() ==> r is Err,
+            r is Err ==> r->Err_0 is IoError,
+            r is Ok ==> old(self).rest().len() >= old(buf)@.len() && final(buf)@ == old(self).rest().subrange(0, old(buf)@.len() as int)
+                && final(self).rest() == old(self).rest().subrange(old(buf)@.len() as int, old(self).rest().len() as int),
+    { unimplemented!() }
+}
+/// `vec![0_u8; n]` (R27): n zero bytes
+#[verifier::external_body]
+pub fn zeroed(n: usize) -> (r: Vec<u8>)
+    ensures r@.len() == n,
+{ vec![0_u8; n] }
+/// String::from_utf8 followed by `?` (TRUSTED; the conversion `From<FromUtf8Error>` is InvalidInput): Ok iff the bytes are UTF-8
+pub uninterp spec fn utf8_ok(b: Seq<u8>) -> bool;
+pub uninterp spec fn utf8_text(b: Seq<u8>) -> Seq<char>;
+#[verifier::external_body]
+pub fn string_from_utf8(b: Vec<u8>) -> (r: Result<String>)
+    ensures (r is Ok) == utf8_ok(b@), r is Ok ==> r->Ok_0@ == utf8_text(b@), r is Err ==> r->Err_0 is InvalidInput,
+{ unimplemented!() }
 /// `std::io::Error::from(std::io::ErrorKind::UnexpectedEof).into()` (R22)
 pub fn io_eof() -> (r: AsepriteParseError)
     ensures r is IoError,
@@ -2468,10 +2491,7 @@ impl ZlibDecoder {
                       "        // C07: bytes after the declared ones do not matter\n"
                       "        (!self.input.fails() && self.input.rest().len() >= limit) ==> r is Ok,")),
         dict(RDR, kind="fn", file="reader", name="read_bytes", key="AseReader::read_bytes", ret="r", rules=["R1", "R6", "R11"],
-             body_rewrites=[("""self.input
-            .by_ref()
-            .take(count as u64)
-            .read_to_end(&mut output)?;""", "self.input.read_up_to(count as u64, &mut output)?;"),
+             body_rewrites=[(r"re:self\.input\s*\.by_ref\(\)\s*\.take\(([^()]+)\)\s*\.read_to_end\(&mut (\w+)\)\?;", r"self.input.read_up_to(\1, &mut \2)?;"),
                             ("std::io::Error::from(std::io::ErrorKind::UnexpectedEof).into()", "io_eof()")],
              ensures=("        // C13: exactly `count` bytes or an error (a short read is the I/O error UnexpectedEof); C14: the I/O error is returned\n"
                       "        r is Ok ==> r->Ok_0@.len() == count && old(self).input.rest().len() >= count && r->Ok_0@ =~= old(self).input.rest().subrange(0, count as int),\n"
@@ -2479,6 +2499,25 @@ impl ZlibDecoder {
                       "        r is Err ==> r->Err_0 is IoError,\n"
                       "        (!old(self).input.fails() && old(self).input.rest().len() >= count) ==> r is Ok,\n"
                       "        old(self).input.rest().len() < count ==> r is Err,")),
+        dict(RDR, kind="fn", file="reader", name="string", key="AseReader::string", ret="r", rules=["R1", "R6", "R11"],
+             body_rewrites=[("self.input.read_u16::<LittleEndian>()?", "self.input.read_u16_le()?"), ("vec![0_u8; str_len as usize]", "zeroed(str_len as usize)"),
+                            ("String::from_utf8(str_bytes)?", "string_from_utf8(str_bytes)?")],
+             prologue="        let ghost d0 = self.input.rest();",
+             hints=[("let s =", "        assert(str_bytes@ =~= d0.subrange(2, 2 + (str_len as int)));\n        assert(self.input.rest() =~= d0.subrange(2 + (str_len as int), d0.len() as int));", "before")],
+             ensures=("        // STRING = little-endian u16 length, then exactly that many bytes, which have to be UTF-8 (C01: names as stored)\n"
+                      "        r is Ok ==> ({ let d = old(self).input.rest(); let n = d[0] as int + 256 * (d[1] as int);\n"
+                      "            &&& d.len() >= 2 + n && utf8_ok(d.subrange(2, 2 + n)) && r->Ok_0@ == utf8_text(d.subrange(2, 2 + n))\n"
+                      "            &&& final(self).input.rest() =~= d.subrange(2 + n, d.len() as int) }),\n"
+                      "        // C13: fewer bytes than declared is an error; bytes that are not UTF-8 are InvalidInput\n"
+                      "        old(self).input.rest().len() < 2 ==> r is Err,\n"
+                      "        old(self).input.rest().len() >= 2 && old(self).input.rest().len() < 2 + old(self).input.rest()[0] as int + 256 * (old(self).input.rest()[1] as int) ==> r is Err,\n"
+                      "        (!old(self).input.fails() && old(self).input.rest().len() >= 2 && ({ let d = old(self).input.rest(); let n = d[0] as int + 256 * (d[1] as int); d.len() >= 2 + n && utf8_ok(d.subrange(2, 2 + n)) })) ==> r is Ok,")),
+        dict(RDR, kind="fn", file="reader", name="skip_reserved", key="AseReader::skip_reserved", ret="r", rules=["R1", "R6", "R11"],
+             body_rewrites=[("vec![0_u8; count]", "zeroed(count)"), (".map_err(to_ase)", "")],
+             ensures=("        // exactly `count` bytes are consumed, or the call fails\n"
+                      "        r is Ok ==> old(self).input.rest().len() >= count && final(self).input.rest() == old(self).input.rest().subrange(count as int, old(self).input.rest().len() as int),\n"
+                      "        old(self).input.rest().len() < count ==> r is Err,\n"
+                      "        (!old(self).input.fails() && old(self).input.rest().len() >= count) ==> r is Ok,")),
         dict(RDR, kind="fn", file="reader", name="unzip", key="AseReader::unzip", ret="r", rules=["R1", "R6", "R11"],
              ensures=("        // the inflated stream has exactly the expected size, or the load fails\n"
                       "        r is Ok ==> r->Ok_0@.len() == expected_output_size && inflated(self.input.rest()).len() >= expected_output_size\n"
@@ -2525,8 +2564,8 @@ pub fn collect_rgba(b: &Vec<u8>) -> (r: Result<Vec<Rgba<u8>>>)
          "requires": "        bpp(pixel_format) * expected_pixel_count <= usize::MAX,",
          "ensures": "        r == bpp(pixel_format) * expected_pixel_count,"},
         {"kind": "fn", "file": "pixel", "name": "from_bytes", "key": "RawPixels::from_bytes", "impl_of": "RawPixels", "ret": "r", "rules": ["R1", "R6", "R11"],
-         "body_rewrites": [("bytes.chunks_exact(2).map(Grayscale::new).collect()", "collect_gray(&bytes)"),
-                           ("bytes.chunks_exact(4).map(read_rgba).collect()", "collect_rgba(&bytes)"),
+         "body_rewrites": [(r"re:bytes\s*\.chunks_exact\(2\)\s*\.map\(Grayscale::new\)\s*\.collect\(\)", "collect_gray(&bytes)"),
+                           (r"re:bytes\s*\.chunks_exact\(4\)\s*\.map\(read_rgba\)\s*\.collect\(\)", "collect_rgba(&bytes)"),
                            ("pixels.map(Self::Grayscale)", "match pixels { Ok(v) => Ok(Self::Grayscale(v)), Err(e) => Err(e) }"),
                            ("pixels.map(Self::Rgba)", "match pixels { Ok(v) => Ok(Self::Rgba(v)), Err(e) => Err(e) }")],
          "ensures": ("        // a byte count that is not a whole number of pixels is refused, everything else decodes (C06)\n"
@@ -2579,10 +2618,7 @@ pub fn collect_tiles(b: &Vec<u8>, header: &TileBitmaskHeader) -> (r: Result<Vec<
 """},
         {"kind": "fn", "file": "tile", "name": "unzip", "key": "Tiles::unzip", "impl_of": "Tiles", "ret": "r", "rules": ["R1", "R6", "R11"],
          "sig_rewrites": [("<T: Read>", ""), ("AseReader<T>", "AseReader")],
-         "body_rewrites": [("""bytes
-            .chunks_exact(4)
-            .map(|bytes| Tile::new(bytes, header))
-            .collect()""", "collect_tiles(&bytes, header)")],
+         "body_rewrites": [(r"re:bytes\s*\.chunks_exact\(4\)\s*\.map\(\|(\w+)\| Tile::new\(\1, header\)\)\s*\.collect\(\)", "collect_tiles(&bytes, header)")],
          "requires": "        4 * expected_tile_count <= usize::MAX,",
          "ensures": ("        // C05 / C08: a tilemap that loads has exactly the declared number of tiles, tile i from inflated bytes 4i .. 4i+4\n"
                      "        r is Ok ==> r->Ok_0.0@.len() == expected_tile_count && inflated(reader.input.rest()).len() >= 4 * expected_tile_count\n"
